@@ -14,6 +14,7 @@ structure S where
   limNum : Nat := 0
   limSize : Nat := 0
   hasBuf : Bool := false
+  norel : Bool := false                -- the buffer was created without a Released callback
   defs : List (Nat × Ev) := []
   failC : List (Nat × Nat) := []
   failP : List (Nat × Nat) := []
@@ -46,15 +47,19 @@ def fmtCb (recs : Nat → Rec) : Cb → String
   | .connect _ => ""
 
 /-- the entries added since `old` (traces are newest first), oldest first, printed -/
-def fmtNew (old new : St) : String :=
+def fmtNew (norel : Bool) (old new : St) : String :=
   let added := (new.trace.take (new.trace.length - old.trace.length)).reverse
-  let toks := (added.map (fmtCb new.recs)).filter (fun s => !s.isEmpty)
+  let toks := (added.map (fmtCb new.recs)).filter (fun s => !s.isEmpty && !(norel && s.startsWith "R"))
   if toks.isEmpty then "-" else " ".intercalate toks
 
 def model (s : S) (ws : List String) : S × String :=
   match ws with
   | ["lim", a, b] =>
     ({ s with limNum := parseLim a 4294967295, limSize := parseLim b 18446744073709551615, hasBuf := true }, "ok")
+  | ["lim", a, b, "norel"] =>
+    -- no Released callback: the (logical) releases of the model are not observable
+    ({ s with limNum := parseLim a 4294967295, limSize := parseLim b 18446744073709551615, hasBuf := true,
+              norel := true }, "ok")
   | ["conn", l] =>
     let ids := (splitList l).map nat!
     ({ s with st := { s.st with conn := ids.reverse ++ s.st.conn }, init := ids.reverse ++ s.init }, "ok")
@@ -71,12 +76,12 @@ def model (s : S) (ws : List String) : S × String :=
     let tag := s.st.n
     let (st', ok) := pushEvent true (oracle s) s.limNum s.limSize s.st e tag
     let (n, w) := st'.total
-    ({ s with st := st', copies := (tag, e) :: s.copies }, s!"{fmtNew s.st st'} ret={b2s ok} tot={n}/{w}")
+    ({ s with st := st', copies := (tag, e) :: s.copies }, s!"{fmtNew s.norel s.st st'} ret={b2s ok} tot={n}/{w}")
   | ["clear"] =>
     if !s.hasBuf then (s, "nobuf") else
     let st' := clear s.st
     let (n, w) := st'.total
-    ({ s with st := st' }, s!"{fmtNew s.st st'} tot={n}/{w}")
+    ({ s with st := st' }, s!"{fmtNew s.norel s.st st'} tot={n}/{w}")
   | _ => (s, "bad-op")
 
 def parseTok (tok : String) : Option Cb :=
@@ -105,7 +110,9 @@ def predicate (s : S) (tot : Option (Nat × Nat)) (afterClear : Bool) : Option S
   if !parentsOk evOf s.init s.impl then some "P_C14(a):process-before-parents-connected"
   else if !procOk s.impl then some "P_C14(b):process-twice-or-after-released"
   else if !relOk s.impl then some "P_C14(c):released-twice"
-  else if afterClear && !allReleased s.copies.length s.impl then some "P_C14(c):copy-not-released-after-clear"
+  else if afterClear && !s.norel && !allReleased s.copies.length s.impl then some "P_C14(c):copy-not-released-after-clear"
+  else if s.norel && s.impl.any (fun e => match e with | .released .. => true | _ => false) then
+    some "unexpected-output:released-without-callback"
   else match tot with
     | none => none
     | some t =>
@@ -226,6 +233,21 @@ def model (s : S) (ws : List String) : S × String :=
         else
           ({ s with proc := some (deliver (oracle s) p (nat! b) (nat! pos) (nat! err)),
                     delivered := (nat! b, nat! pos) :: s.delivered }, "ok")
+  | ["stopmid", b, pos, err] =>
+    -- the result arrives, and Stop is called while the inserter is in the middle of handling it
+    match s.proc with
+    | none => (s, "noproc")
+    | some p =>
+      match s.accepted.lookup (nat! b) with
+      | none => (s, "nobatch")
+      | some n =>
+        if nat! pos ≥ n || s.delivered.contains (nat! b, nat! pos) || p.stopped then (s, "nobatch")
+        else
+          let p' := stop (deliver (oracle s) p (nat! b) (nat! pos) (nat! err))
+          let out := p'.st.trace.reverse.drop s.printed
+          let (bn, bw) := p'.st.buf.total
+          ({ s with proc := some p', printed := p'.st.trace.length, delivered := (nat! b, nat! pos) :: s.delivered },
+           s!"{join out} sem={p'.st.sem.num}/{p'.st.sem.size} buf={bn}/{bw}")
   | ["sync"] =>
     match s.proc with
     | none => (s, "noproc")
@@ -317,14 +339,15 @@ def predicate (s : S) (newToks : List String) (isStop : Bool) (sem : Option (Nat
 
 def judge (s : S) (iws : List String) : S × String :=
   let line := " ".intercalate iws
-  if !(s.lastOp == "sync" || s.lastOp == "stop") || s.proc.isNone then
+  if !(s.lastOp == "sync" || s.lastOp == "stop" || s.lastOp == "stopmid") || s.proc.isNone
+      || iws == ["nobatch"] || iws == ["stopped"] then
     (s, if line == s.expected then "ok" else s!"FAIL model={s.expected}")
   else
     let toks := iws.filter (fun w => !(w.startsWith "sem=" || w.startsWith "buf=" || w == "-"))
     if toks.any (fun t => t.startsWith "!" || t == "timeout" || t == "panic") then
       (s, s!"FAIL unexpected-output model={s.expected}") else
     let sem := (kv iws "sem").bind parsePair
-    match predicate s toks (s.lastOp == "stop") sem with
+    match predicate s toks (s.lastOp == "stop" || s.lastOp == "stopmid") sem with
     | some why => ({ s with impl := s.impl ++ toks }, s!"FAIL {why} model={s.expected}")
     | none => ({ s with impl := s.impl ++ toks }, if line == s.expected then "ok" else s!"FAIL model={s.expected}")
 
